@@ -265,6 +265,51 @@ def run(workers, only):
     print("SWEEP-DONE", flush=True)
 
 
+def recheck(workers):
+    """Re-run the twenty checks (current rules) on the survivors that no check reported; the suite verdict is kept."""
+    rp = os.path.join(HERE, "results.jsonl")
+    recs = [json.loads(l) for l in open(rp)]
+    muts = {m["id"]: m for m in json.load(open(os.path.join(HERE, "mutants.json")))}
+    todo = [r for r in recs if r["tests"]["ok"] and not r.get("reported") and r["id"] in muts]
+    print("%d silent survivors to re-check with %d workers" % (len(todo), workers), flush=True)
+    ws = [Worker(k) for k in range(workers)]
+    for w in ws:
+        shutil.rmtree(w.dir, ignore_errors=True)
+        os.makedirs(w.dir)
+        subprocess.check_call(["rsync", "-a", "--exclude", "target", "--exclude", ".git", REPO + "/", w.repo + "/"])
+    lock = threading.Lock()
+    it = iter(todo)
+
+    def loop(w):
+        while True:
+            with lock:
+                r = next(it, None)
+            if r is None:
+                return
+            m = muts[r["id"]]
+            path = os.path.join(w.repo, m["file"])
+            orig = open(os.path.join(REPO, m["file"])).read()
+            lines = orig.split("\n")
+            lines[m["line"] - 1] = m["text"]
+            with open(path, "w") as f:
+                f.write("\n".join(lines))
+            try:
+                r["reported"] = w.checks()
+            finally:
+                with open(path, "w") as f:
+                    f.write(orig)
+    ts = [threading.Thread(target=loop, args=(w,)) for w in ws]
+    [t.start() for t in ts]
+    [t.join() for t in ts]
+    with open(rp, "w") as f:
+        for r in recs:
+            f.write(json.dumps(r) + "\n")
+    for w in ws:
+        shutil.rmtree(w.dir, ignore_errors=True)
+    shutil.rmtree("/var/tmp/abasic-sweep-cache", ignore_errors=True)
+    print("RECHECK-DONE", flush=True)
+
+
 def report():
     recs = [json.loads(l) for l in open(os.path.join(HERE, "results.jsonl"))]
     tot = len(recs)
@@ -297,5 +342,7 @@ if __name__ == "__main__":
             else:
                 a = a[1:]
         run(w, only)
+    elif cmd == "recheck":
+        recheck(int(sys.argv[3]) if len(sys.argv) > 3 and sys.argv[2] == "--workers" else 3)
     else:
         report()
